@@ -70,6 +70,10 @@ def scen(w, enc="inch", K=3, kinds="r"):
                 shift = {ax: cur[ax] - new[ax] for ax in "XYZ"}
         st = STEPS[w.choose(len(STEPS), "step")]
         w.cover("step-" + st)
+        first_shift = (enc == "shift" and k == 0)
+        if first_shift and not st.startswith("XY"):
+            # homing is not translated: the translated path starts with a positioning move onto the path
+            pl.skip(w, "shift: first step must position X and Y")
         axes = [c for c in st]
         tgt = {ax: w.real("s%d_%s" % (k, ax)) for ax in axes}
         wa, wb = [], []
@@ -95,6 +99,8 @@ def scen(w, enc="inch", K=3, kinds="r"):
         entering = alg.and_(alg.not_(ra.ep_before), ra.dest_inside) if ra.is_move else False
         if enc == "rel" and switched and ra.is_move and KF_REL_EXIT in w.excluded:
             w.assume(alg.not_(leaving))
+        if first_shift:
+            w.assume(alg.not_(ra.dest_inside))
         if "Z" in axes and KF_ENTER_Z in w.excluded:
             w.assume(alg.not_(entering))
         ra = a.finish()
